@@ -38,27 +38,35 @@ def permute_keys(rng, x, mode):
     return x
 
 
-def reblank_ref(rng, m):
+# blanks a field may hold: the plain space everywhere; where the field's character set allows them (range
+# expressions, embedded file data) also the other characters the lexers count as blank (\s)
+SPACE_ONLY = [" "]
+ANY_BLANK = [" ", " ", "\t", "\n", "\u2003", "\u00a0", " \t"]
+
+
+def reblank_ref(rng, m, blanks=SPACE_ONLY):
     body = m.group(1)
     if not re.fullmatch(r"[ ]*[A-Za-z_][A-Za-z0-9_]*([ ]*\.[ ]*[A-Za-z_][A-Za-z0-9_]*)*[ ]*", body):
         return m.group(0)          # not a plain dotted name with spaces: leave alone
     parts = [p.strip(" ") for p in body.split(".")]
 
     def b():
-        return " " * rng.choice([0, 0, 1, 2])
+        return "".join(rng.choice(blanks) for _ in range(rng.choice([0, 0, 1, 2])))
     return "{{" + b() + (b() + "." + b()).join(parts) + b() + "}}"
 
 
-def reblank_tokens(rng, s, token_re):
-    """re-space a token string: tokens are kept, single spaces inserted/removed between them"""
+def reblank_tokens(rng, s, token_re, blanks=SPACE_ONLY):
+    """re-space a token string: tokens are kept, blanks inserted/removed between them"""
     toks = token_re.findall(s)
     if "".join(toks) != s.replace(" ", "") or len(s) > 300:
         return s               # not only tokens and spaces, or near a length limit (re-spacing would cross it): leave alone
     out = ""
     for i, t in enumerate(toks):
         if i and (rng.random() < 0.5 or (re.match(r"[A-Za-z0-9_]", t) and re.match(r"[A-Za-z0-9_]", toks[i - 1]))):
-            out += " "
+            out += rng.choice(blanks)
         out += t
+    if blanks is not SPACE_ONLY and rng.random() < 0.2:
+        out = rng.choice(blanks) + out + rng.choice(blanks)
     return out
 
 
@@ -104,10 +112,12 @@ def reblank(rng, doc):
             return s
         if "range" in keys and isinstance(path[-1], str) and path[-1] == "range":
             # an INT range expression string: blanks around tokens and inside references
-            s2 = REF.sub(lambda m: reblank_ref(rng, m), s)
+            s2 = REF.sub(lambda m: reblank_ref(rng, m, ANY_BLANK), s)
             if "{{" not in s2:
-                return reblank_tokens(rng, s2, RANGE_TOK)
+                return reblank_tokens(rng, s2, RANGE_TOK, ANY_BLANK)
             return s2
+        if path[-1] == "data":
+            return REF.sub(lambda m: reblank_ref(rng, m, ANY_BLANK), s)
         return REF.sub(lambda m: reblank_ref(rng, m), s)
     return map_strings(doc, f)
 
@@ -194,8 +204,8 @@ def norm_blanks(obj):
     """blanks inside '{{ }}' of the strings a Job keeps unresolved are presentation"""
     def f(s, path):
         if path and path[-1] in ("combination", "range"):
-            return s.replace(" ", "")      # token strings: blanks between tokens are presentation
-        return REF.sub(lambda m: "{{" + re.sub(r"[ ]+", "", m.group(1)) + "}}" if re.fullmatch(r"[ A-Za-z0-9_.]*", m.group(1)) else m.group(0), s)
+            return re.sub(r"\s+", "", s)      # token strings: blanks between tokens are presentation
+        return REF.sub(lambda m: "{{" + re.sub(r"\s+", "", m.group(1)) + "}}" if re.fullmatch(r"[\sA-Za-z0-9_.]*", m.group(1)) else m.group(0), s)
     return map_strings(obj, f)
 
 
@@ -204,7 +214,7 @@ class C19(core.PropBase):
     id = "C19"
     component = "accept"
     extract_file = "ExtractAccept.v"
-    chars = _SRC_CHARS + "".join(chr(i) for i in range(128, 256)) + "٣　 ²"
+    chars = _SRC_CHARS + "".join(chr(i) for i in range(128, 256)) + "٣　 ²\u2003\u00a0"
     uses_table = True
     chunk_size = 30
     theorem_for_mismatch = "C19_key_order / C19_blanks / C19_rename (metamorphic: verdict and Job of a document vs its transformed variant)"
@@ -317,7 +327,10 @@ class C19(core.PropBase):
             missing = core.doc_chars(d) - set(self.chars)
             if missing:
                 raise RuntimeError(f"characters not in the class table: {missing!r}")
-            reqs.append(["accept_" + case["kind"], core.json_sx(d)])
+            try:
+                reqs.append(["accept_" + case["kind"], core.json_sx(d)])
+            except ValueError:
+                return []       # a non-finite number: not a document of the model's json type; metamorphic part only
         return reqs
 
     def model_obs(self, case, replies):
@@ -327,7 +340,7 @@ class C19(core.PropBase):
             return "skip" if r[1] == "RuntimeError" else "model:" + r[1]
         vs = [verdict(r) for r in replies]
         io = self.impl(case)
-        if "skip" in vs:
+        if not vs or "skip" in vs:
             return io            # outside the structural model's domain: metamorphic part only
         out = {"base": vs[0]}
         i = 1
